@@ -40,6 +40,26 @@ CLAIMS = {
    level=("model_checking", "Agreement.tla enumerates EVERY well-formed (sender copy, receiver copy, truncation point) within the scope as an initial state (quick: versions/watermarks 0..3, 3 sender keys, every status, watermark above max included = 145 680 cases; thorough 0..5) and checks the agreement rule C14_Agreement on each; every case is realised on two real nodes (copies installed with crafted ACKs, delta computed by the real sender under a byte budget admitting exactly b key-values, delivered as an ACK) and compared; differing outcomes are judged by the same formula on the observed values.", "6 (C14)"),
    note="receiver copies range over one key (receiver key-values at or below its max version cannot influence the outcome); exhaustive within the scope only; trusts the independent codec and TLC",
    technique="TLA+ exhaustive pair enumeration (Agreement.tla) + replay of every case on two real nodes + observer spec"),
+ "C07": dict(
+   level=("model_checking", "Structural half: Gossip.tla action property C07_Structure (per member of every produced delta: member not scheduled for deletion, start version in {0, digest max}, key-values exactly the sender's entries in (start, max], ascending) on the model, on every real reply of every replayed edge and validated driver trace (including ~30/50 KB values that force truncation), and on all Agreement.tla pairs at every truncation point (C07_Range). Size half: every real datagram length is logged and C07_Size (<= 65 507) is evaluated by TLC on every real step.", "6 (C07)"),
+   note="the byte-exact budget arithmetic model (Budget.tla) and the boundary-directed size sweep are not part of this revision: the size half is decided on observed real message lengths only, for clusters of up to 5 members; bounded scopes",
+   technique="TLA+ model checking (Gossip.tla) + edge replay + TLC trace validation + observer spec on real traces"),
+ "C12": dict(
+   level=("model_checking", "Gossip.tla with the concrete phi-accrual detector in integer ticks: invariant C12_Sets and action properties C12_Partition (exactly one of live/dead after an evaluation), C12_Quarantine (no digest/delta mentions a member dead for more than grace/2), C12_Removal, C12_NoRevival (re-creation only through a digest heartbeat strictly above the remembered one, not live on re-creation); model-checked on the membership config, replayed edge by edge, and evaluated on every step of real driver traces with 3-5 nodes, crashes by silence, partitions and clock advances around grace/2 and grace.", "6 (C12)"),
+   note="removed-member memory modelled unbounded (capacity 500 not reached); death times are inferred by TLC in trace validation and derived from the logged evaluation clock in the observer; detector boundary equality may round either way (explicit in the spec)",
+   technique="TLA+ model checking (Gossip.tla) + edge replay + TLC trace validation + observer spec on real traces"),
+ "C13": dict(
+   level=("model_checking", "Gossip.tla action properties C13_Publish (a new value, exact at that moment, iff the live set or a live member's max version changed since the previous evaluation), C13_OnlyEval, and C13_Exact (value exactness after every evaluation) in the scope without tombstone GC; with and without an extra liveness predicate; on the model, replayed edges and real driver traces (watch value and publication count are projected through the public watcher).", "6 (C13)"),
+   note="C13_Exact is claimed only for executions without tombstone GC (C12's step relation plus plain writes; see DESIGN observation O-4); predicates are functions of key-values",
+   technique="TLA+ model checking (Gossip.tla) + edge replay + TLC trace validation + observer spec on real traces"),
+ "C16": dict(
+   level=("model_checking", "Gossip.tla with per-node cluster ids: invariant C16_Isolation (no copy, detector entry, dead/live/removed entry of a foreign-cluster member) and action property C16_Reject (a foreign SYN is answered with BadCluster and changes nothing but the own heartbeat); model-checked for two clusters sharing peers, replayed, and evaluated on real traces of five nodes in four clusters whose ids are '', 'c', 'C', 'cc'.", "6 (C16)"),
+   note="bounded scopes; seeds are modelled as the ability of any node to address any other",
+   technique="TLA+ model checking (Gossip.tla) + edge replay + TLC trace validation + observer spec on real traces"),
+ "C18": dict(
+   level=("model_checking", "Gossip.tla action Catchup (transcription of reset_node_state_if_update) with C18_Catchup (others untouched, live set unchanged, no re-creation of a removed member, (gc,max) never lowered, key set old or supplied with the newer version kept) and C18_NoPanic; model-checked interleaved with gossip and GC, replayed, and evaluated on real traces fed with honest peer snapshots and with arbitrary inconsistent states.", "6 (C18)"),
+   note="defect F-4 (panic on older watermark / key-less snapshot) was found by this check and repaired by a fix: commit (known_findings.json, status fixed); supplied versions are pairwise distinct (observation O-2)",
+   technique="TLA+ model checking (Gossip.tla) + edge replay + TLC trace validation + observer spec on real traces"),
 }
 PENDING = "specification module for this property not built yet in this revision (see DESIGN.md section 10 build order)"
 
